@@ -340,11 +340,11 @@ theorem no_live_timer_at_end (c : Cfg) (r : Result) (h : runForever c = some r) 
       refine (sp.permS.mem_iff).2 ?_
       simp [setS, hj, Blk.asyncStop, hk]
     rcases hsrc with hsrc | ⟨_, h2, h3⟩
-    · obtain ⟨pass2, ph, hpt⟩ := plan_timers c
+    · obtain ⟨pass1, pass2, ph, hpt⟩ := plan_timers c
       simp only [hpt] at hsrc
       rcases armAll_mem _ _ _ _ hsrc with h1 | ⟨h1, h2⟩
       · simp only [initTimers, List.mem_filter, Bool.and_eq_true, beq_iff_eq] at h1
-        exact hnos (hsync x h1.1 h1.2.1.2)
+        exact hnos (hsync x h1.1 h1.2.1)
       · exact hnos (hsync x h1 h2)
     · exact hnos (hsync x h2 h3)
 
